@@ -51,8 +51,10 @@ def parseFormat (s : String) : Nuts.C01.Format :=
   if s == "ldp_vc" || s == "ldp_vp" then .ld else if s == "jwt_vc" || s == "jwt_vp" then .jwt else .other
 
 def parseStatus (j : Json) : Status :=
-  { id := jStr j "id", typ := jStr j "typ", purpose := jStr j "purpose", listCred := jStr j "listCred",
-    index := (optInt j "index").map Int.toNat, entryValid := jBool j "entryValid" }
+  let s : Status := { id := jStr j "id", typ := jStr j "typ", purpose := jStr j "purpose", listCred := jStr j "listCred",
+                      index := (optInt j "index").map Int.toNat, entryValid := jBool j "entryValid" }
+  -- since the deepening round the verdict of StatusList2021Entry.Validate is COMPUTED by the model for StatusList2021Entry statuses
+  if jHas j "urlOK" && s.typ == statusListEntryType then { s with entryValid := entryValidOf (jBool j "unmarshals") (jBool j "urlOK") { s with id := jStr j "entryId" } } else s
 
 def parseCred (j : Json) : Cred :=
   { format := parseFormat (jStr j "fmt")
